@@ -315,7 +315,9 @@ def _parse_object(
     properties.update(
         {
             _parse_attribute_name(key): _Property(
-                Element(), required=True, source=key
+                _undeclared_property_element(schema, key),
+                required=True,
+                source=key,
             )
             for key in schema.get("required", [])
             if _parse_attribute_name(key) not in properties
@@ -340,6 +342,21 @@ def _parse_object(
             cls_args[key] = schema[key]
     object_type = ObjectMeta(title, (Object,), class_dict, **cls_args)
     return state.dedupe(object_type)
+
+
+def _undeclared_property_element(schema: Dict[str, Any], key: str) -> Element:
+    """Get the element for a required name which has no declared property.
+
+    Such a name is still an additional property, unless it is matched by
+    ``"patternProperties"`` (whose schemas are applied separately).
+    """
+    patterns = schema.get("patternProperties", {})
+    if any(re.search(pattern, key) for pattern in patterns):
+        return Element()
+    additional = schema["additionalProperties"]
+    if isinstance(additional, bool):
+        return Element() if additional else Nothing()
+    return additional
 
 
 def _parse_properties(
